@@ -16,6 +16,7 @@ import ForML.Lemmas.C01Compile
 import ForML.Lemmas.C01Rerun
 import ForML.Lemmas.C01Traversal
 import ForML.Lemmas.C01Construct
+import ForML.Lemmas.C01Faults
 
 namespace ForML.Flow
 open Segment
@@ -360,6 +361,111 @@ example : (match compile falsyDemo falsyAssets falsyDemo.visitOrder with
     | .error _ => (none, none)) =
     (some (.committed [.dumped (.state 2002 .none (.apply 1000 .none []) (.apply 1000 .none []))]),
      some (.apply 2002 .none [.apply 1000 .none []])) := by rfl
+
+/-! ### compiling again after the graph has changed -/
+
+/-- **Every compilation denotes the graph as it is at that moment**: for any sequence of rounds — the same head and
+tail with workers, forks, trainers, subscriptions added in between, or any other segments; each with the store of its
+moment — every round's traversal succeeds, its compilation succeeds and the table preserves the dataflow of *that*
+round's graph. (`compile` is a function of the whole graph; nothing of an earlier round enters.) -/
+theorem C01_recompile (rounds : List (Segment × Option Assets)) (rank : Segment → Uid → Nat)
+    (h : ∀ r ∈ rounds, r.1.wf (rank r.1) = true ∧ r.1.assetsOK r.2 = true ∧ r.1.connected = true) :
+    ∀ r ∈ rounds, ∃ o t, r.1.each = .ok o ∧ compile r.1 r.2 o = .ok t ∧ Preserves r.1 r.2 t :=
+  fun r hr => C01_dataflow_traversal r.1 r.2 (rank r.1) (h r hr).1 (h r hr).2.1 (h r hr).2.2
+
+/-- the statement a cache keyed by the segment's boundary would need: a table compiled for one graph serves every
+well-formed graph between the same head and tail … -/
+def C01_compile_by_boundary_full : Prop :=
+  ∀ (g₁ g₂ : Segment) (A : Option Assets) (r₁ r₂ : Uid → Nat) (t : Table),
+    g₁.head = g₂.head → g₁.tail = g₂.tail → g₁.wf r₁ = true → g₂.wf r₂ = true → g₂.connected = true →
+    g₂.assetsOK A = true → compile g₁ A g₁.visitOrder = .ok t → Preserves g₂ A t
+
+/-- source → stateful scaler → sink … -/
+def stage1 : Segment :=
+  ⟨[⟨0, 0, 0, false, 0, 1⟩, ⟨1, 1, 1, true, 1, 1⟩, ⟨2, 2, 2, false, 1, 1⟩],
+   [⟨0, 0, 1, .apply 0⟩, ⟨1, 0, 2, .apply 0⟩], 0, 2, []⟩
+
+/-- … and the same head and tail after the trained fork of the scaler has been attached -/
+def stage2 : Segment :=
+  ⟨[⟨0, 0, 0, false, 0, 1⟩, ⟨1, 1, 1, true, 1, 1⟩, ⟨2, 2, 2, false, 1, 1⟩, ⟨3, 1, 1, true, 1, 1⟩],
+   [⟨0, 0, 1, .apply 0⟩, ⟨1, 0, 2, .apply 0⟩, ⟨0, 0, 3, .train⟩, ⟨0, 0, 3, .label⟩], 0, 2, []⟩
+
+/-- … is false: the table of `stage1` has no task for the trainer of `stage2` (and applies the scaler without state) -/
+theorem C01_compile_by_boundary_counterexample : ¬ C01_compile_by_boundary_full := by
+  intro h
+  have hp := h stage1 stage2 none (fun u => u) (fun u => if u = 3 then 1 else if u = 0 then 0 else u + 1)
+    [⟨.uid 0, .functor 0 .apply [], []⟩, ⟨.uid 1, .functor 1 .apply [], [.uid 0]⟩,
+     ⟨.uid 2, .functor 2 .apply [], [.uid 1]⟩]
+    rfl rfl (by decide) (by decide) (by decide) (by decide) rfl
+  have := hp.tasks ⟨3, 1, 1, true, 1, 1⟩ (by decide)
+  revert this
+  decide
+
+/-- what does hold: a compiled table serves the graph it was compiled from -/
+theorem C01_compile_by_boundary_partial (g : Segment) (A : Option Assets) (rank : Uid → Nat) (t : Table)
+    (hwf : g.wf rank = true) (hA : g.assetsOK A = true) (hc : g.connected = true)
+    (hct : compile g A g.visitOrder = .ok t) : Preserves g A t := by
+  obtain ⟨t', hct', hp⟩ := C01_dataflow g A rank g.visitOrder hwf hA (visitOrder_perm hwf hc)
+  rw [hct] at hct'; cases hct'
+  exact hp
+
+/-! ### an accessor that fails -/
+
+/-- `Loader.execute` against an accessor that may fail (`Store.loader`): it returns a value exactly for a stored state
+and for the documented `MissingError` (→ `none`: "no state"); every other refusal raises; and the abstract store of the
+interpreter (`Store.toAssets`) holds that value resp. the error value in its place -/
+theorem C01_loader_outcomes (S : Store) (γ : Gid) (i : Nat) (hi : indexOf γ S.persistent = some i) :
+    (S.outcomes[i]? = none → S.loader γ = .ok .none) ∧
+    (S.outcomes[i]? = some .missing → S.loader γ = .ok .none) ∧
+    (∀ v, S.outcomes[i]? = some (.state v) → S.loader γ = .ok v) ∧
+    (S.outcomes[i]? = some .refused → S.loader γ = .error .assetRefused) ∧
+    (S.outcomes[i]? = some .crashed → S.loader γ = .error .assetCrashed) ∧
+    (match S.loader γ with | .ok v => v | .error e => .error e) = S.toAssets.load γ := by
+  refine ⟨?_, ?_, ?_, ?_, ?_, Store.loader_toAssets S γ⟩ <;> intros <;> simp_all [Store.loader]
+
+/-- **A refused load fails the run and nothing is committed**: when the accessor answers the load of a persistent
+group that has a stateful member in the segment with anything but a state or `MissingError`, executing the compiled
+table raises (`runFails`) — the member that is handed the loaded state (the group's trainer, else its applied
+members) is never computed — and no generation is committed. In particular the actor is *not* run without its state. -/
+theorem C01_refused_load_fails (g : Segment) (As : Assets) (rank : Uid → Nat) (t : Table)
+    (hwf : g.wf rank = true) (hp : Preserves g (some As) t)
+    (w : Worker) (hw : w ∈ g.workers) (hst : w.stateful = true) (hc : As.contains w.gid = true)
+    (e : RunErr) (hl : As.load w.gid = .error e) :
+    runFails (some As) t = true ∧ committedStates (some As) t = none := by
+  obtain ⟨x, hx, _, he⟩ := consumer_hasError (wf_WF hwf) hw hst hc hl
+  have hmem := lookupVal_mem (hp.values x hx)
+  have hf : runFails (some As) t = true := by
+    simp only [runFails, List.any_eq_true]
+    exact ⟨_, hmem, he⟩
+  exact ⟨hf, by simp [committedStates, hf]⟩
+
+/-- … and in a training segment the committer itself is downstream of the refused load: the value it would commit
+carries the error, i.e. `State.commit` is never called -/
+theorem C01_refused_load_blocks_commit (g : Segment) (As : Assets) (rank : Uid → Nat) (t : Table)
+    (hwf : g.wf rank = true) (hA : g.assetsOK (some As) = true) (hp : Preserves g (some As) t)
+    (w : Worker) (hw : w ∈ g.workers) (hst : w.stateful = true) (hc : As.contains w.gid = true)
+    (e : RunErr) (hl : As.load w.gid = .error e) (tw : Worker) (htw : g.trainerOf w.gid = some tw) :
+    ∃ c, (run (some As) t).get .committer = some c ∧ c.hasError = true := by
+  have h := wf_WF hwf
+  have hA' := assetsOK_AssetsOK hA
+  have hmemP : w.gid ∈ As.persistent := (indexOf_isSome_iff _ _).mp hc
+  have hs₀ : (g.trainerOf w.gid).isSome = true := by rw [htw]; rfl
+  have hcv : g.commitVal (some As) = some (As.commit (As.persistent.map fun p =>
+      match g.trainerOf p with
+      | some t => .dumped (g.nodeVal (some As) g.evalFuel t.uid)
+      | none => .error .unbound)) := by
+    simp only [commitVal]
+    rw [if_pos (List.any_eq_true.mpr ⟨w.gid, hmemP, hs₀⟩)]
+    rfl
+  have hcm := hp.commit
+  rw [hcv] at hcm
+  refine ⟨_, hcm, ?_⟩
+  simp only [Assets.commit, List.length_map, if_true, Val.hasError]
+  have he := trainer_hasError h hc hl htw
+  apply Val.anyError_of_mem (v := .dumped (g.nodeVal (some As) g.evalFuel tw.uid))
+  · rw [List.mem_map]
+    exact ⟨w.gid, hmemP, by simp [htw]⟩
+  · simpa [Val.hasError] using he
 
 /-- the single stateless worker without any subscription (regression witness of fix C01-F1: the unrepaired
 `Linkage.leaves` asserted `'Not acyclic'` on its empty linkage) -/
